@@ -33,6 +33,14 @@ HIER = {
     "key_hand_parent": ({"P": klass(decl=["k", "v"], body={"k": b(False), "v": b(False)}, key="k", hand=[("k", 100), ("v", 1)]),
                          "C": klass(bases=["P"], body={"k": b(True, I(8)), "v": b(True, I(5))}),
                          "E": klass(bases=["P"], decl=["e"], body={"e": b(True, I(3)), "v": b(True, I(4))})}, ["P", "C", "E"]),
+    # a plain class BETWEEN two decorated classes re-defaults an attribute the inner one does not mention (generated and hand-written base constructors)
+    "spec_plain_spec": ({"Base": klass(decl=["a", "b"], body={"a": b(True, I(1)), "b": b(False)}),
+                         "Tuned": klass(bases=["Base"], spec=False, body={"a": b(True, I(5))}),
+                         "Leaf": klass(bases=["Tuned"], decl=["c"], body={"c": b(True, I(3))}),
+                         "Leaf2": klass(bases=["Leaf"], spec=False, body={"c": b(True, I(4))})}, ["Leaf", "Leaf2"]),
+    "hand_plain_spec": ({"Base": klass(decl=["x", "y"], body={"x": b(False), "y": b(False)}, hand=[("x", 1), ("y", 2)]),
+                         "Tuned": klass(bases=["Base"], spec=False, body={"x": b(True, I(50))}),
+                         "Leaf": klass(bases=["Tuned"], decl=["c"], body={"c": b(True, I(3))})}, ["Leaf"]),
     # an inherited init=False attribute re-declared through Attr(...) (constructor argument again) / merely re-defaulted (still not one)
     "init_false_redeclared": ({"P": klass(decl=["a", "x"], body={"a": b(True, I(1), init=False), "x": b(True, I(0))}),
                                "Q": klass(bases=["P"], decl=["a"], body={"a": b(True, I(5), as_attr=True)}),
